@@ -137,6 +137,15 @@ Section Libraries.
     map (fun m => let '(xs, xa, w, h) := m in
                   serve_call key V zarg mar unm enc dec keyver wrap unwrap ks xs xa w h) ms.
   Proof. exact (serve_seq_fresh_session key V zarg mar unm enc dec keyver wrap unwrap). Qed.
+
+  (* Application data in the session swap - under ANY string keys, "0" and "" included - is invisible
+     to the plugin, whose two keys have a type of their own: the message is served as on a session
+     with an empty swap. *)
+  Theorem C17_app_swap_data_invisible : forall ks m xs xa w h,
+    Forall (fun k => match k with AppKey _ => True | _ => False end) m ->
+    fst (serve_call_sw key V zarg mar unm enc dec keyver wrap unwrap ks (plugin_view true m) xs xa w h) =
+    serve_call key V zarg mar unm enc dec keyver wrap unwrap ks xs xa w h.
+  Proof. exact (app_swap_invisible key V zarg mar unm enc dec keyver wrap unwrap). Qed.
 End Libraries.
 
 Print Assumptions C17_secure_end_to_end.
@@ -151,6 +160,7 @@ Print Assumptions C17_unmarked_unchanged.
 Print Assumptions C17_server_half.
 Print Assumptions C17_handler_status_rule.
 Print Assumptions C17_message_flags_do_not_leak.
+Print Assumptions C17_app_swap_data_invisible.
 
 (* The property's sentence "a reply is encrypted whenever the request was encrypted", read
    without the caller's opt-out, does not hold of the code: a request with X-Secure: true and
@@ -178,6 +188,19 @@ Theorem C17_shared_swap_variant_refuted :
   map (s_rep_secure bytes) (toy_seq true ms) = [Some (str "true"); Some (str "true")].
 Proof. exact shared_swap_leaks. Qed.
 Print Assumptions C17_shared_swap_variant_refuted.
+
+(* the variant whose keys are plain strings: application data under "0" makes an unmarked call's
+   reply come back enveloped *)
+Theorem C17_untyped_swap_keys_variant_refuted :
+  let h := mkHandler bytes (fun _ => str "res") KStruct RetNil None in
+  let serve typed := fst (serve_call_sw unit bytes [] (fun v : bytes => Some v) (fun b : bytes => Some b)
+            (fun (_ : unit) (x : bytes) => x) (fun (_ : unit) (x : bytes) => Some x)
+            (fun _ : unit => str "v") (fun v c : bytes => Some (v ++ c)) toy_unwrap tt
+            (plugin_view typed [AppKey (str "0")]) None None (str "arg") h) in
+  s_rep_wire bytes (serve true) = Some (str "res") /\ s_rep_secure bytes (serve true) = None /\
+  s_rep_wire bytes (serve false) = Some (str "vres") /\ s_rep_secure bytes (serve false) = Some (str "true").
+Proof. exact untyped_keys_collide. Qed.
+Print Assumptions C17_untyped_swap_keys_variant_refuted.
 
 (* non-vacuity of the positive statements on the same toy instance *)
 Example C17_example_roundtrip :
